@@ -1,8 +1,10 @@
 use crate::engine::Property;
 
 pub mod c01;
+pub mod c04;
 pub mod c06;
 pub mod c07;
+pub mod c10;
 pub mod c12;
 pub mod c13;
 pub mod c14;
@@ -12,8 +14,10 @@ pub mod c19;
 pub fn all() -> Vec<Box<dyn Property>> {
     vec![
         Box::new(c01::C01),
+        Box::new(c04::C04),
         Box::new(c06::C06),
         Box::new(c07::C07),
+        Box::new(c10::C10),
         Box::new(c12::C12),
         Box::new(c13::C13),
         Box::new(c14::C14),
